@@ -360,6 +360,15 @@ func (e *Engine) stableViolations(t types.Type) []string {
 // function before the function ends (callees, memory, results). A variable captured only by a
 // closure that is itself used only in a defer statement does not escape to other callees.
 func escapes(al *ssa.Alloc) bool {
+	return escapesRec(al, map[*ssa.Alloc]bool{})
+}
+
+func escapesRec(al *ssa.Alloc, busy map[*ssa.Alloc]bool) bool {
+	if busy[al] {
+		return false
+	}
+	busy[al] = true
+	defer delete(busy, al)
 	seen := map[ssa.Value]bool{}
 	var derived func(v ssa.Value) bool
 	derived = func(v ssa.Value) bool {
@@ -383,13 +392,38 @@ func escapes(al *ssa.Alloc) bool {
 					return true
 				}
 			case *ssa.UnOp:
-				// load: the loaded value is not the address
+				// load through the address: the loaded value is not the address
+			case *ssa.Return:
+				// handing the address to the caller does not expose it to callees of this function
+			case *ssa.BinOp:
+				// pointer comparison
 			case *ssa.Store:
-				if x.Val == v {
-					return true // the address itself is stored somewhere
+				if x.Val != v {
+					continue // store through the address
+				}
+				// the address is stored into memory: fine when that memory is a local variable that
+				// does not escape itself and whatever is loaded from it is used harmlessly
+				root := x.Addr
+				for {
+					if fa, ok := root.(*ssa.FieldAddr); ok {
+						root = fa.X
+						continue
+					}
+					if ia, ok := root.(*ssa.IndexAddr); ok {
+						root = ia.X
+						continue
+					}
+					break
+				}
+				holder, ok := root.(*ssa.Alloc)
+				if !ok || escapesRec(holder, busy) {
+					return true
+				}
+				// every pointer-typed load from the holder may yield this address
+				if loadsLeak(holder, derived) {
+					return true
 				}
 			case *ssa.MakeClosure:
-				// captured: escapes only if the closure value is used other than by defer / direct call
 				crefs := x.Referrers()
 				if crefs == nil {
 					return true
@@ -416,6 +450,45 @@ func escapes(al *ssa.Alloc) bool {
 		return false
 	}
 	return derived(al)
+}
+
+// loadsLeak: does any pointer-like value loaded from (a field of) the holder variable have a use
+// that would let a callee see it?
+func loadsLeak(holder *ssa.Alloc, derived func(ssa.Value) bool) bool {
+	var walk func(v ssa.Value, depth int) bool
+	walk = func(v ssa.Value, depth int) bool {
+		if depth > 10 {
+			return true
+		}
+		refs := v.Referrers()
+		if refs == nil {
+			return false
+		}
+		for _, r := range *refs {
+			switch x := r.(type) {
+			case *ssa.FieldAddr:
+				if walk(x, depth+1) {
+					return true
+				}
+			case *ssa.IndexAddr:
+				if walk(x, depth+1) {
+					return true
+				}
+			case *ssa.UnOp:
+				if x.Op != token.MUL {
+					continue
+				}
+				switch x.Type().Underlying().(type) {
+				case *types.Pointer, *types.Slice, *types.Map, *types.Interface, *types.Struct:
+					if derived(x) {
+						return true
+					}
+				}
+			}
+		}
+		return false
+	}
+	return walk(holder, 0)
 }
 
 // globalWriters lists functions other than package initialisation (init, and setup functions run
